@@ -223,6 +223,15 @@ Theorem C16_clean_fixed : forall p : string, is_clean_path p = true -> path_clea
 Proof. exact is_clean_fixed. Qed.
 Print Assumptions C16_clean_fixed.
 
+(* the byte-by-byte transcription of Go's path.Clean (the lazybuf loop: clean_bytes) against the
+   component-level model the theorems are about.  Partial: all 9841 strings of at most 8 bytes
+   over {/, ., a}, by computation; every other string only through the correspondence run, which
+   holds both against the real path.Clean *)
+Theorem C16_clean_bytes_agree_partial :
+  forall s : string, In s (strings_upto ["/"%char; "."%char; "a"%char] 8) -> clean_bytes s = path_clean s.
+Proof. exact clean_bytes_agree_small. Qed.
+Print Assumptions C16_clean_bytes_agree_partial.
+
 (* every name LoadArchiveFiles exposes, over the concrete clean: a fixed point of path.Clean,
    relative, not ".", not starting with ".." *)
 Theorem C16_names_concrete :
@@ -272,6 +281,15 @@ Example C16_cleanjoin2_ex :
   clean_join2 "/r/" "c:\x" = inl CJ2Colon /\ clean_join2 "../r" "a" = inl CJ2Root.
 Proof. exact cleanjoin2_example. Qed.
 Print Assumptions C16_cleanjoin2_ex.
+
+(* DownloadTo's file name, completed: one non-empty path element, never "." or "..", no
+   separator; joined to any destination it appends exactly that one component *)
+Theorem C16_download_name_element :
+  forall (upath name d : string), download_name upath = Some name -> d <> "" ->
+  name <> "" /\ name <> "." /\ name <> ".." /\ contains_char slash name = false /\
+  clean_comps (path_join d name) = (clean_comps d ++ [name])%list.
+Proof. exact download_name_element. Qed.
+Print Assumptions C16_download_name_element.
 
 (* ---------- the nested file-system model ---------- *)
 (* SecureJoin's contract, for every tree with symlinks anywhere (relative, absolute, chains,
